@@ -133,6 +133,18 @@ def trimeshLocate (m : Mesh K) (pn : Option (PseudoNormals K)) (fid : Nat) (pt :
     | none => pure (proj, loc)
     | some n => pure (⟨insideBy pt proj.pt n, proj.pt⟩, loc)
 
+/-- `..._with_max_dist`: the best-first search starts with `best_cost = max_dist`; the leaf is accepted when its weight
+`|pt - proj| < max_dist`, or — `solid` and the triangle's own (tolerant) inside flag — by the visitor's early exit; the root
+is not even visited when `max_dist / 2 >= max_dist`. -/
+def trimeshLocateMaxDist (m : Mesh K) (pn : Option (PseudoNormals K)) (fid : Nat) (pt : V3 K) (solid : Bool) (maxDist : K) :
+    Option (Option (PP3 K × TriLoc K)) := do
+  let t ← m.tri? fid
+  let r ← trimeshLocate m pn fid pt solid
+  let own := (t.projectLoc pt solid).1
+  if maxDist ≤ maxDist / two then pure none
+  else if (solid && own.inside) || decide ((r.1.pt.sub pt).norm < maxDist) then pure (some r)
+  else pure none
+
 /-! ## HeightField (3-D) -/
 
 /-- `heights` and `status` are column-major (`DMatrix`): entry `(i, j)` is at `i + j * nrows`. -/
